@@ -135,7 +135,9 @@ MAIN_STEP = {
     "E4-contexts-closed": "implies(at(pre_L2, hit.end) > old.DABS, forall(range(pk() + 1), lambda k: ctx(k) == octx(k) and ABSK[k] == old.ABSK[k]))",
     "E4-shadowed-keeps-state": "implies(at(pre_L2, hit.end) <= old.DABS, len(stack) == len(old.stack) and node == old.node and DABS == old.DABS)",
     # decoded (searched recursively, closes nothing below it) iff the value differs from the covered text ignoring case or it has supplied children
-    "E4-decoded-iff": "implies(attached(), iff(is_decoded(), lower(hit.value) != lower(hit.parent.value[hit.start : hit.end]) or at(pre_L2, nchildren(hit)) > 0))",
+    # (read in the state `decided`, right after the hit was attached and before it is searched: the values never change afterwards - J0 - and reading them
+    # there keeps the frame of the recursive call out of this clause)
+    "E4-decoded-iff": "implies(attached(), iff(is_decoded(), at(decided, lower(hit.value) != lower(hit.parent.value[hit.start : hit.end])) or at(pre_L2, nchildren(hit)) > 0))",
     "E4-decoded-sets-D": "implies(is_decoded(), DABS == at(pre_L2, hit.end) and len(stack) == pk())",
     "E4-context-pushed": "implies(is_context(), len(stack) == pk() + 1 and DABS == old.DABS and ABSK[len(stack)] == at(pre_L2, hit.start))",
     "E4-dropped-D": "implies(not attached(), DABS == old.DABS)",
@@ -164,6 +166,7 @@ contract(
         "pre-assembled": PRE_ASSEMBLED,
     },
     decreases="depth_limit",
+    labels={"decided": "if hit.value.lower() != hit.original.lower()"},
     fresh_nodes=True,
     # pre-existing nodes: only `children` lists change, and only inside the pre-assembled structure of `node`
     modifies={"children": ["*"]},
